@@ -167,6 +167,8 @@ def oracle_c03(rr: Any, spec: Dict[str, Any]) -> "tuple[List[Violation], Dict[st
     tr = rr.trace
     v: List[Violation] = []
     A = spec.get("cfg", {}).get("A")
+    if not A or A < 0:
+        A = None  # limit switched off: only progress is demanded
     stats = {"max_open": 0, "probe_max": 0}
     open_cb: set = set()
     running: set = set()
@@ -204,16 +206,22 @@ def oracle_c03(rr: Any, spec: Dict[str, Any]) -> "tuple[List[Violation], Dict[st
         v.append(Violation("listen-raised", f"listen() raised {rr.err}"))
     if rr.outcome == "horizon":
         v.append(Violation("stall", "worker stopped making progress: stream ended but listen() did not return before the horizon"))
-    if A and probe and rr.outcome in ("returned", "api-horizon"):
-        want = min(A, len(probe))
+    if probe and rr.outcome in ("returned", "api-horizon"):
+        want = min(A, len(probe)) if A else len(probe)
         if stats["probe_max"] < want:
             v.append(Violation("slot-leak", f"saturation probe ran only {stats['probe_max']} tasks concurrently, expected {want}"))
     # every valid message executed (progress)
     starts = Counter(e["m"] for e in tr if e["k"] == "task_start")
     hooks_fail = {e["m"] for e in tr if e["k"].startswith("mw_raise:pre_execute")}
+    # (an already expired timeout label, <= 0, likewise ends the message before the body gets to run)
+    bad_label = {i for i, m in enumerate(spec.get("msgs", []))
+                 if m.get("timeout_raw") is not None or (m.get("timeout") is not None and m["timeout"] <= 0)}
+    tok_bad = {(m.get("tok") or f"m{i}") for i, m in enumerate(spec.get("msgs", [])) if i in bad_label}
     if rr.outcome in ("returned", "api-horizon"):
         for e in tr:
             if e["k"] == "yield" and e["mk"] == "valid" and e["m"] not in hooks_fail and not starts.get(e["m"]):
+                if e.get("tok") in tok_bad:
+                    continue  # timeout label is not a number: the message fails before the body is started
                 v.append(Violation("message-dropped", f"delivery {e['m']} never executed"))
     return v, stats
 
